@@ -342,6 +342,20 @@ func (c *Ctx) callPath(cc *ssa.CallCommon, env Env, d int) string {
 	// literal that only computes and returns a value reads as that value, in the frame it was made in
 	if p, isP := cc.Value.(*ssa.Parameter); isP && env != nil {
 		if fa, known := c.fnArgs[env[p]]; known {
+			// a method value (`s.Parser.ParseX`) handed in: the call is that method's, on the receiver bound where the
+			// value was made
+			if mc, isMC := fa.v.(*ssa.MakeClosure); isMC && len(mc.Bindings) == 1 {
+				if bf, _ := mc.Fn.(*ssa.Function); bf != nil && strings.HasPrefix(bf.Synthetic, "bound method") {
+					recv := c.path(mc.Bindings[0], fa.env, d+1)
+					name := strings.TrimSuffix(bf.Name(), "$bound")
+					if types.IsInterface(mc.Bindings[0].Type()) {
+						return fmt.Sprintf("invoke<%s>.%s[%s](%s)", typeShort(mc.Bindings[0].Type()), name, recv, strings.Join(args, ","))
+					}
+					if m := funcValueOf(mc); m != nil && m != bf {
+						return fname(m) + "(" + strings.Join(append([]string{recv}, args...), ",") + ")"
+					}
+				}
+			}
 			var fn *ssa.Function
 			switch y := fa.v.(type) {
 			case *ssa.Function:
@@ -2709,4 +2723,15 @@ func (c *Ctx) factoryCallForm(call, fc *ssa.Call, g *ssa.Function, env Env) (str
 		return "", false
 	}
 	return c.concatForm(returnedValue(rets[0], 0), lenv), true
+}
+
+// uniqStrs drops the repetitions of a sorted list of strings.
+func uniqStrs(in []string) []string {
+	var out []string
+	for i, s := range in {
+		if i == 0 || s != in[i-1] {
+			out = append(out, s)
+		}
+	}
+	return out
 }
